@@ -336,7 +336,7 @@ def inSt1 (regular : Bool) (wnd : BitVec 16) (una : U32) (st : InLoop) : InLoop 
 
 /-- IKCP_CMD_ACK -/
 def inAck (st1 : InLoop) (sn ts : U32) : InLoop :=
-  let k2 := parseAck st1.k sn
+  let k2 := shrinkBuf (parseAck st1.k sn)
   let pf := parseFastack k2 sn ts
   { st1 with k := pf.1, flushSeg := st1.flushSeg || pf.2, updRtt := true, latest := ts }
 
